@@ -90,13 +90,31 @@ func c19Step(t *engine.T, hist string, n *ap.NaturalLanguageValues, m []c19Pair,
 	fail := func(sym, format string, a ...any) {
 		t.Fail("C19|ops|"+op.kind+"|"+sym, "history %s: %s", hist, fmt.Sprintf(format, a...))
 	}
+	text := func() ap.Content {
+		if c19Shared == nil {
+			return ap.Content(op.text)
+		}
+		// aliasing mode: the caller passes the SAME byte slice (with spare capacity) every time it passes this text
+		s, ok := c19Shared[op.text]
+		if !ok {
+			s = append(make(ap.Content, 0, len(op.text)+8), op.text...)
+			c19Shared[op.text] = s
+		}
+		return s
+	}
 	switch op.kind {
 	case "set":
-		n.Set(ap.LangRef(op.tag), ap.Content(op.text))
+		n.Set(ap.LangRef(op.tag), text())
 	case "append":
-		n.Append(ap.LangRef(op.tag), ap.Content(op.text))
+		n.Append(ap.LangRef(op.tag), text())
 	case "add":
-		n.Add(ap.LangRefValue{Ref: ap.LangRef(op.tag), Value: ap.Content(op.text)})
+		n.Add(ap.LangRefValue{Ref: ap.LangRef(op.tag), Value: text()})
+	}
+	for want, s := range c19Shared {
+		if string(s) != want {
+			fail("caller-text-modified", "the caller's slice holding %q now reads %q", want, s)
+			c19Shared[want] = append(make(ap.Content, 0, len(want)+8), want...)
+		}
 	}
 	t.Ops(1)
 	after := c19Model(*n)
@@ -137,7 +155,11 @@ func c19Step(t *engine.T, hist string, n *ap.NaturalLanguageValues, m []c19Pair,
 		}
 	}
 	// observers against the (new) model
-	for _, tag := range c19Tags {
+	probe := c19Tags
+	if c19Probe != nil {
+		probe = c19Probe
+	}
+	for _, tag := range probe {
 		got := n.Get(ap.LangRef(tag))
 		want, ok := c19Get(after, tag)
 		if !ok && got != nil {
@@ -161,6 +183,120 @@ func c19Step(t *engine.T, hist string, n *ap.NaturalLanguageValues, m []c19Pair,
 	t.Ops(2)
 	t.State(engine.Hash64("c19", c19Fmt(after)), len(after) > 0)
 	return after
+}
+
+var c19Shared map[string]ap.Content // non-nil: texts are passed as shared slices (aliasing mode)
+
+var c19Probe []string // scale histories: the tags Get is probed with
+
+// c19Scale reaches containers of k entries with pairwise distinct tags (k around 8, 16, 32, 64) - by k Appends or as a literal -
+// and explores every continuation of depth <= 2; equality is checked against a permutation, a changed last text, a changed last
+// tag, a prefix and an extension of the same list.
+func c19Scale(c *engine.Ctx) {
+	tagOf := func(i int) string { return fmt.Sprintf("x-t%d", i) }
+	for _, k := range []int{7, 8, 9, 15, 16, 17, 31, 32, 33, 63, 64, 65, 130} {
+		for _, how := range []string{"appended", "literal"} {
+			k, how := k, how
+			long := strings.Repeat("long text é€😀 ", 20)
+			var ops []c19Op
+			for _, kind := range []string{"set", "append", "add"} {
+				for _, tg := range []string{tagOf(0), tagOf(k / 2), tagOf(k - 1), tagOf(k), "-"} {
+					ops = append(ops, c19Op{kind, tg, "a"})
+				}
+				ops = append(ops, c19Op{kind, tagOf(k - 1), long})
+			}
+			c.Do("C19|ops", func() string {
+				return fmt.Sprintf("container of %d distinct tags (%s), then every continuation up to depth 2 over %d operations", k, how, len(ops))
+			}, func(t *engine.T) {
+				c19Probe = []string{tagOf(0), tagOf(1), tagOf(k / 2), tagOf(k - 2), tagOf(k - 1), tagOf(k), "-", "en"}
+				defer func() { c19Probe = nil }()
+				var n int64
+				run := func(seq []c19Op) {
+					var cont ap.NaturalLanguageValues
+					var m []c19Pair
+					hist := fmt.Sprintf("%d distinct tags (%s)", k, how)
+					if how == "literal" {
+						for i := 0; i < k; i++ {
+							cont = append(cont, ap.LangRefValue{Ref: ap.LangRef(tagOf(i)), Value: ap.Content(fmt.Sprintf("text %d", i))})
+						}
+						cont = cont[:k:k]
+						m = c19Model(cont)
+					} else {
+						for i := 0; i < k; i++ {
+							m = c19Step(t, hist, &cont, m, c19Op{"append", tagOf(i), fmt.Sprintf("text %d", i)})
+						}
+					}
+					for _, op := range seq {
+						hist += "; " + op.String()
+						m = c19Step(t, hist, &cont, m, op)
+					}
+					n++
+				}
+				run(nil)
+				for _, o1 := range ops {
+					run([]c19Op{o1})
+					for _, o2 := range ops {
+						run([]c19Op{o1, o2})
+					}
+				}
+				t.AddEvals(n-1, n-1)
+			})
+		}
+		k := k
+		c.Do("C19|equals", func() string {
+			return fmt.Sprintf("NaturalLanguageValues.Equals on lists of %d distinct tags: permuted, changed, shortened, extended", k)
+		}, func(t *engine.T) {
+			t.Distinct(true)
+			base := make([]c19Pair, k)
+			for i := range base {
+				base[i] = c19Pair{tagOf(i), fmt.Sprintf("text %d", i)}
+			}
+			variants := map[string][]c19Pair{"identical": append([]c19Pair{}, base...)}
+			rev := make([]c19Pair, k)
+			for i := range base {
+				rev[k-1-i] = base[i]
+			}
+			variants["reversed"] = rev
+			rot := append(append([]c19Pair{}, base[1:]...), base[0])
+			variants["rotated"] = rot
+			lt := append([]c19Pair{}, base...)
+			lt[k-1].text = "other"
+			variants["last-text-changed"] = lt
+			lg := append([]c19Pair{}, base...)
+			lg[k-1].tag = "x-other"
+			variants["last-tag-changed"] = lg
+			ft := append([]c19Pair{}, base...)
+			ft[0].text = "other"
+			variants["first-text-changed"] = ft
+			// near misses of an indexed comparison: a foreign tag that carries the text of the first / last / no entry
+			for _, j := range []int{1, k / 2, k - 1} {
+				for tn, tx := range map[string]string{"first-text": base[0].text, "last-text": base[k-1].text, "empty-text": ""} {
+					fv := append([]c19Pair{}, base...)
+					fv[j] = c19Pair{"x-foreign", tx}
+					variants[fmt.Sprintf("entry-%d-of-k-replaced-by-foreign-tag-with-%s", map[int]int{1: 1, k / 2: 2, k - 1: 3}[j], tn)] = fv
+				}
+			}
+			variants["shortened"] = append([]c19Pair{}, base[:k-1]...)
+			variants["extended"] = append(append([]c19Pair{}, base...), c19Pair{"x-more", "more"})
+			names := make([]string, 0, len(variants))
+			for nme := range variants {
+				names = append(names, nme)
+			}
+			sort.Strings(names)
+			for _, nme := range names {
+				v := variants[nme]
+				want := c19Set(base) == c19Set(v)
+				for _, pair := range [][2][]c19Pair{{base, v}, {v, base}} {
+					got := c19Build(pair[0]).Equals(c19Build(pair[1]))
+					t.Ops(1)
+					if got != want {
+						t.Fail(fmt.Sprintf("C19|equals|long|%s|got=%v", nme, got), "lists of %d entries (%s): Equals = %v, expected %v", k, nme, got, want)
+					}
+				}
+			}
+			t.AddEvals(int64(2*len(names))-1, int64(2*len(names))-1)
+		})
+	}
 }
 
 func c19Lists() [][]c19Pair {
@@ -209,19 +345,20 @@ func init() {
 		Assumptions: []string{"for Set on a tag that occurs more than once only the clauses of the statement are demanded (which duplicates are rewritten is left open)"},
 		Bound: func(tier string) string {
 			if tier == "thorough" {
-				return "all histories of depth <= 5 (4 starts x 18^5 = 7.6M histories); equality complete (6241 pairs)"
+				return "all histories of depth <= 6 (4 starts x 18^6 = 136M histories, each in two modes: fresh texts / texts passed as shared slices); equality complete (6241 pairs); far states: containers of 7..130 distinct tags reached in two ways x every continuation of depth <= 2 over 18 operations; equality of 7..130-entry lists against 8 variants"
 			}
-			return "all histories of depth <= 4 (4 starts x 18^4 = 420k histories); equality complete (6241 pairs)"
+			return "all histories of depth <= 4 (4 starts x 18^4 = 420k histories, each in two modes: fresh texts / texts passed as shared slices); equality complete (6241 pairs); far states: containers of 7..130 distinct tags reached in two ways x every continuation of depth <= 2 over 18 operations; equality of 7..130-entry lists against 8 variants"
 		},
 		Run: c19Run,
 	})
 }
 
 func c19Run(c *engine.Ctx) {
+	c19Scale(c)
 	ops := c19Ops()
 	depth := 4
 	if !c.Quick() {
-		depth = 5
+		depth = 6
 	}
 	for _, st := range c19Starts {
 		for _, o1 := range ops {
@@ -233,14 +370,22 @@ func c19Run(c *engine.Ctx) {
 					var n int64
 					var rec func(suffix []c19Op)
 					run := func(suffix []c19Op) {
-						cont := st.mk()
-						m := c19Model(cont)
-						hist := "start " + st.name
-						for _, op := range append([]c19Op{o1, o2}, suffix...) {
-							hist += "; " + op.String()
-							m = c19Step(t, hist, &cont, m, op)
+						for _, aliasing := range []bool{false, true} {
+							c19Shared = nil
+							hist := "start " + st.name
+							if aliasing {
+								c19Shared = map[string]ap.Content{}
+								hist += " (texts passed as shared slices)"
+							}
+							cont := st.mk()
+							m := c19Model(cont)
+							for _, op := range append([]c19Op{o1, o2}, suffix...) {
+								hist += "; " + op.String()
+								m = c19Step(t, hist, &cont, m, op)
+							}
+							c19Shared = nil
+							n++
 						}
-						n++
 					}
 					rec = func(suffix []c19Op) {
 						run(suffix)
